@@ -252,7 +252,15 @@ class HTTP2Connection(ConnectionInterface):
             )
         ]
 
-        self._h2_state.send_headers(stream_id, headers, end_stream=end_stream)
+        try:
+            self._h2_state.send_headers(stream_id, headers, end_stream=end_stream)
+        except h2.exceptions.ProtocolError:
+            # The headers are validated while they are being encoded, so part of
+            # a rejected header block may already be in the HPACK encoder's
+            # dynamic table, which the peer never gets to see. Requests sent on
+            # this connection afterwards could not be decoded.
+            self._connection_error = True
+            raise
         self._h2_state.increment_flow_control_window(2**24, stream_id=stream_id)
         self._write_outgoing_data(request)
 
